@@ -116,7 +116,18 @@ def option_menu(tname, files, lat):
     p_small = (lat[q] + off, lat[q + 1] + off)
     p_big = (lat[1] + off, lat[-2] + off)
     p_other = (lat[3 * q] + off, lat[3 * q] + 2 * off)
+    # touching periods (one ends exactly where the next starts) and a chain
+    # of three: the shapes an interval tree distinguishes
+    p_next = (p_small[1], p_small[1] + (p_small[1] - p_small[0]))
+    p_third = (p_next[1], p_next[1] + (p_small[1] - p_small[0]))
     menu += [
+        ("exclude-2-touching", {}, dict(exclude=[p_small, p_next]),
+         dict(exclude_periods=[p_small, p_next])),
+        ("exclude-3-chain", {}, dict(exclude=[p_next, p_third, p_small]),
+         dict(exclude_periods=[p_small, p_next, p_third])),
+        ("exclude-zero-length", {}, dict(exclude=[(p_small[0], p_small[0]),
+                                                  p_next]),
+         dict(exclude_periods=[(p_small[0], p_small[0]), p_next])),
         ("exclude-1-period", {}, dict(exclude=[p_small]),
          dict(exclude_periods=[p_small])),
         ("exclude-covering-period", {}, dict(exclude=[p_big]),
